@@ -145,6 +145,16 @@ fn ill_typed_stmt(d: &mut Dec, p: &GProg) -> (&'static str, String) {
     }
 }
 
+/// one ill-typed statement injected at a random position of a random block; returns the text
+pub fn inject_ill_typed(mut p: GProg, md: &mut Dec) -> String {
+    let (_kind, stmt) = ill_typed_stmt(md, &p);
+    let nblocks = count_blocks(&p).max(1);
+    let k = md.below(nblocks);
+    let pos = md.below(8);
+    let _ = insert_into_block(&mut p, k, pos, &stmt);
+    render(&p)
+}
+
 /// insert `stmt` into the k-th block of the program; returns the nesting depth
 fn insert_into_block(p: &mut GProg, k: usize, pos_seed: usize, stmt: &str) -> Option<u32> {
     fn go(e: &mut Expr, counter: &mut usize, k: usize, pos_seed: usize, stmt: &str, depth: u32, out: &mut Option<u32>) {
